@@ -59,6 +59,7 @@ func cmdRun(args []string) {
 	budget := fs.Int("budget", 0, "wall-clock budget in seconds per harness")
 	params := fs.String("params", "", "k=v,k=v harness parameters")
 	vector := fs.String("vector", "", "comma-separated concrete nondet values (concrete run)")
+	finals := fs.String("final", "", "comma-separated portfolio solvers for undecided obligations (z3,z3-new,cvc5,cvc5-int)")
 	fs.Parse(args)
 	t0 := time.Now()
 	lp, err := loadProgram(*repo, *hd)
@@ -77,6 +78,11 @@ func cmdRun(args []string) {
 			n := 0
 			fmt.Sscan(v, &n)
 			cfg.Params[k] = n
+		}
+	}
+	for _, f := range strings.Split(*finals, ",") {
+		if f != "" {
+			cfg.FinalSolvers = append(cfg.FinalSolvers, solverName(f).kind())
 		}
 	}
 	if *vector != "" {
